@@ -160,7 +160,7 @@ func (rg *rootGeneratorPipeline) worker(ctx context.Context, wg *sync.WaitGroup,
 			for sc.Scan() {
 				currentNode, err := rg.nodeGenerator.generate(sc.Text(), counter.next())
 				if err != nil {
-					errc <- err
+					sendErr(ctx, errc, err)
 					return
 				}
 
@@ -175,14 +175,14 @@ func (rg *rootGeneratorPipeline) worker(ctx context.Context, wg *sync.WaitGroup,
 				}
 
 				if nodes == nil {
-					errc <- errNilStack
+					sendErr(ctx, errc, errNilStack)
 					return
 				}
 
 				nodes.dfs(currentNode)
 			}
 			if err := sc.Err(); err != nil {
-				errc <- err
+				sendErr(ctx, errc, err)
 				return
 			}
 			if root == nil {
